@@ -59,8 +59,7 @@ theorem join_decodes_core (l r : Str) (h : joinsEscape l r = false) : decodeEsc 
     | nil => trivial
     | cons c cs => simpa using h
   | backslash => rw [hst] at h; cases h
-  | hex0 => rw [hst] at h; cases h
-  | hex1 c0 v => rw [hst] at h; cases h
+  | hex k need seen v => rw [hst] at h; cases h
 
 /-- a body without backslash decodes to itself -/
 theorem decode_id {raw : Str} (h : raw.contains '\\' = false) : decodeEsc raw = raw := by
